@@ -266,6 +266,9 @@ def minimise(pool, prop, unit, rec, cls, budget=80):
     scen = unit.get("scenario") or ws.gen_scenario(unit["prop"], unit["idx"])
     best = copy.deepcopy(scen)
     spent = 0
+    if sum(len(p["deliver"]) for p in scen["processes"]) > 400:
+        # large-scale / many-traces scenarios: seconds per candidate run
+        budget = min(budget, 12)
 
     def fails(s):
         nonlocal spent
